@@ -459,7 +459,10 @@ class PreTranslator(ASTTranslator):
 extractors_cache = {}
 
 def create_extractors(code_key, tree, globals, locals, special_functions, const_functions, outer_names=()):
-    result = extractors_cache.get(code_key)
+    # Entity.select(func) wraps the body of func into a generator expression, Query.filter(func) uses the body itself:
+    # the same func (or lambda text) can be processed in both forms
+    cache_key = code_key, isinstance(tree, ast.GeneratorExp)
+    result = extractors_cache.get(cache_key)
     if not result:
         pretranslator = PreTranslator(tree, globals, locals, special_functions, const_functions, outer_names)
         extractors = {}
@@ -474,5 +477,5 @@ def create_extractors(code_key, tree, globals, locals, special_functions, const_
                 def extractor(globals, locals, code=code):
                     return eval(code, globals, locals)
             extractors[src] = extractor
-        result = extractors_cache[code_key] = tree, extractors
+        result = extractors_cache[cache_key] = tree, extractors
     return result
